@@ -43,9 +43,17 @@ def explain(meta, model_out):
         proj = [w for w in flat if w in ws]
         if g['ctx'] == ['allflow']:
             continue
+        complete = [w for w in g['words'] if w in set(proj)] == g['words']
+        duplicated = complete and len(proj) > len(g['words'])
         if set(g['ctx']) & LOSSY_CTX:
             ids.add('flex-grid-fragmentation-loses-content')
             lost_words |= ws
+        elif duplicated and i in bad and 'float' in g['ctx']:
+            ids.add('float-fragment-duplicated')
+        elif duplicated and i in bad and 'footnote' in g['ctx']:
+            ids.add('footnote-duplicated')
+        elif duplicated and i in bad and {'columns', 'table'} <= set(g['ctx']):
+            ids.add('table-in-columns-duplicates-rows')
         elif (g['kind'] == 'oof' and i in bad and proj == g['words'][:len(proj)] and len(proj) < len(g['words'])
               and not (set(g['ctx']) & {'footnote'})):
             ids.add('out-of-flow-lost-at-document-end')
